@@ -4,6 +4,7 @@ import Driver.OpsEval
 import Driver.OpsRoads
 import Driver.OpsAlloc
 import Driver.OpsFn
+import Driver.OpsFnGen
 import Driver.OpsC03
 import Driver.OpsSym
 import Driver.OpsBot
@@ -22,6 +23,7 @@ def handlers : List Handler := [
   handleRoads,
   handleAlloc,
   handleFn,
+  handleFnGen,
   handleC03,
   handleSym,
   handleEval,
